@@ -641,3 +641,30 @@ if __name__ == "__main__":
     import sys
 
     raise SystemExit(main(sys.argv[1:]))
+
+
+def campaign_lex_auto(ck: Check, n: int = 600) -> None:
+    """the lookahead-free lexer automaton of the template analysis (Dcg/Model/TemplateLex.LQ, projected) vs the coarse
+    state machine Dcg/Py/LexState vs the Python function the old translator uses (vlib/translate/templates.lex_text)"""
+    from ..translate import templates as old
+
+    camp = ck.campaign("lex.auto: Model/TemplateLex.LQ (projected) vs Py/LexState.lexState vs translate/templates.lex_text")
+    t0 = time.time()
+    rng = ck.rng.fork("lex-auto")
+    sq3, dq3 = "'" * 3, '"' * 3
+    alphabet = ["'", '"', "\\", "#", "\n", "a", " ", sq3, dq3, "\r"]
+    cases = ["", "'", "''", sq3, "'" * 4, "'" * 5, "'" * 6, "'\\''", dq3 + 'a""', dq3 + "a" + dq3, "#'\n'", "'a\n", "'\\\n'"]
+    for _ in range(n):
+        cases.append("".join(rng.choice(alphabet) for _ in range(rng.range(0, 10))))
+    r1 = ck.driver.run([f"tpl.lexstate {hx(s)}" for s in cases])
+    r2 = ck.driver.run([f"lex.state code {hx(s)}" for s in cases])
+    for s, a, b in zip(cases, r1, r2):
+        camp.evaluations += 1
+        py = "ok " + old.lex_text("code", s)
+        camp.hit("state:" + py[3:])
+        camp.distinct.add(s)
+        if not (a == b == py):
+            ck.disagree(camp, {"text": s}, {"LQ": a, "LexState": b}, py)
+        elif len(camp.samples) < 2 and len(s) > 4:
+            camp.samples.append({"text": s, "state": py[3:]})
+    camp.wall_s = time.time() - t0
